@@ -21,6 +21,8 @@ def instances(tier):
     for kl in ((1, 15, 16, 17) if q else (1, 7, 8, 14, 15, 16, 17, 24, 33)):
         for xdl in (0, 1):
             out.append({'entry': 'h_longkey', 'params': [kl, xdl], 'bound': 'object with one member whose name has %d characters, first and last symbolic (%s)' % (kl, 'XDL' if xdl else 'JSON')})
+    out.append({'entry': 'h_escape', 'params': [0], 'bound': 'string with a backslash followed by every byte'})
+    out.append({'entry': 'h_escape', 'params': [1], 'bound': 'string with \\u 00 followed by every 2 characters from hex digits, g and the quote'})
     return out
 
 
